@@ -132,6 +132,18 @@ add("C12",
     "coordinates at 64 eps of the largest magnitude involved; values at rtol 1e-12, exactly for integer dtypes; far "
     "reference points only without subregions (absolute alignment tolerance).")
 
+add("C13",
+    "model-based history testing: Hypothesis-generated step lists (valid and malformed translate/scale/rotate90, in "
+    "place or copying) interpreted on Region+Mesh+Field with twins; exact affine image of the pre-state per step; "
+    "invariants after every step",
+    "Histories of up to 8 (12) steps are generated and shrunk as one value; each object has a twin advanced with the "
+    "opposite form. After every step: geometric invariants (pmin<pmax, names, integer n, cell*n=edges, subregions on the "
+    "lattice with the mesh's names/units, array/valid shapes), the step's exact affine map applied to the object's own "
+    "pre-state (Fractions, 64 eps), in-place returns self, object == twin, copying leaves the source bit-identical; "
+    "malformed or degenerate steps must raise in both forms and leave the object bit-identical.",
+    "growth budget keeps coordinates within +-100 initial cells (absolute 1e-12 alignment tolerance); histories are "
+    "data interpreted by the check (equivalent to a rule-based state machine, but replayable as JSON).")
+
 PENDING = {}
 
 
